@@ -171,6 +171,89 @@ def rule_commit(ctx) -> None:
     ctx.check(okk and "turn_id" in kb and okr, "C10.COMMIT", f"{sb.qual}/sort-key", sb.loc(), "buffers are sorted by (turn_id, slice_idx) on every key path", "buffers are not sorted by (turn_id, slice_idx)")
 
 
+def rule_driver_faithful(ctx) -> None:
+    """four places where the batch driver must do what the sequential loop does for the same turns:
+    (a) each buffer is committed under ITS agent's context (the snapshot file is state_<agent>.json: under the batch ctx,
+        which names no agent, every agent writes state_agent.json and the second overwrites the first);
+    (b) compute buffers are staged in commit order (a back-pressure flush writes what is staged so far: staged in task
+        order, a buffer that sorts earlier can land after one that sorts later - the files depend on the limit);
+    (c) the final drain and disable_staging run in a `finally` around the commit loop (a failing commit otherwise leaves
+        the committed agents' records unwritten under one limit and written under another, and staging stays on);
+    (d) what the compute phase takes from the stages' metrics is used as the type the REAL stage reports: T1 reports
+        graphs_touched as a count, so iterating it needs a narrowing first."""
+    fn = ctx.func(BATCH)
+    cfg = ctx.cfg(fn)
+    rd = ctx.rd(fn)
+    _ac = _orch_locals(fn, "apply_changes")
+    applies = [(n, c) for n in cfg.nodes for c in node_calls(n) if isinstance(c.func, ast.Name) and c.func.id in _ac]
+    ctx.floor("C10.COMMIT", "apply_changes call sites checked for their context", len(applies), 1)
+    batch_ctx = fn.params[0]
+    for n, c in applies:
+        a0 = c.args[0] if c.args else None
+        ok = False
+        if isinstance(a0, ast.Name) and a0.id != batch_ctx:
+            ds = [d for d in rd.reaching(a0.id, n) if d.value is not None]
+            ok = bool(ds) and all(isinstance(d.value, ast.Call) and call_tail(d.value) == "_clone_ctx_for_agent" and any("agent_id" in src(x) for x in d.value.args[1:2]) for d in ds)
+        elif isinstance(a0, ast.Call) and call_tail(a0) == "_clone_ctx_for_agent":
+            ok = any("agent_id" in src(x) for x in a0.args[1:2])
+        ctx.check(ok, "C10.COMMIT", ctx.okey(f"{fn.qual}/commit-under-the-agents-context"), fn.loc(c), "the commit runs under a context cloned for the buffer's agent",
+                  f"`{src(c)[:60]}` commits under `{src(a0) if a0 is not None else '?'}` - the batch context, which names no agent: apply_changes writes every agent's snapshot as state_agent.json (the "
+                  "second overwrites the first) where the sequential loop writes state_<agent>.json")
+    # (b) staging loops
+    stage_loops = []
+    for lp in [x for x in walk_no_defs(fn.node) if isinstance(x, ast.For)]:
+        inner = [y for st in lp.body for y in ast.walk(st) if isinstance(y, ast.For) and isinstance(y.iter, ast.Subscript) and isinstance(lp.target, ast.Name) and src(y.iter.value) == lp.target.id]
+        if any(isinstance(y, ast.Call) and call_tail(y) == "stage" for st in lp.body for y in ast.walk(st)) and inner and not any(isinstance(y, ast.Call) and isinstance(y.func, ast.Name) and y.func.id in _ac for st in lp.body for y in ast.walk(st)):
+            stage_loops.append(lp)
+    ctx.floor("C10.STAGE", "loops that stage the compute buffers", len(stage_loops), 1)
+    for lp in stage_loops:
+        it = lp.iter
+        srt = isinstance(it, ast.Call) and call_tail(it) in ("_sort_turn_buffers", "sorted")
+        if isinstance(it, ast.Name):
+            hn = [h for h in cfg.nodes if h.kind == "iter" and h.ast is lp]
+            ds = [d for d in rd.reaching(it.id, hn[0]) if d.value is not None and d.kind == "assign"] if hn else []
+            srt = bool(ds) and all(isinstance(d.value, ast.Call) and call_tail(d.value) in ("_sort_turn_buffers", "sorted") for d in ds)
+        ctx.check(srt, "C10.STAGE", ctx.okey(f"{fn.qual}/buffers-staged-in-commit-order"), fn.loc(lp), "the buffers are staged in (turn, slice) order",
+                  f"the buffers are staged in task order (`for ... in {src(it)[:30]}`): when the limit forces a flush mid-way, a buffer that sorts earlier but is staged later is written after the "
+                  "ones it should precede - per-file order depends on the staging limit")
+    # (c) finally
+    dis = [x for x in walk_no_defs(fn.node) if isinstance(x, ast.Call) and any(const_str(a) == "disable_staging" for a in ast.walk(x))]
+    in_finally = False
+    for x in dis:
+        for st, part in enclosing(ctx.prog, fn, x):
+            if isinstance(st, ast.Try) and part == "finalbody" and any(any(isinstance(y, ast.Call) and isinstance(y.func, ast.Name) and y.func.id in _ac for y in ast.walk(b)) for b in st.body):
+                in_finally = True
+    ctx.check(bool(dis) and in_finally, "C10.STAGE", f"{fn.qual}/drain-and-disable-in-finally", fn.loc(dis[0]) if dis else fn.loc(),
+              "the final drain / disable_staging run in a finally around the commit loop",
+              "the final drain and disable_staging are plain statements after the commit loop: when a commit raises, nothing staged is written under a large limit (the committed agents' records "
+              "are lost) while a small limit has already flushed some - and staging stays enabled for whatever runs next")
+    # (d) metrics of the real stages
+    rc = ctx.func(PAR + ":_run_turn_compute")
+    t1m = ctx.prog.module("clematis.engine.stages.t1")
+    counts = set()
+    for x in ast.walk(t1m.tree):
+        if isinstance(x, ast.Dict):
+            for k, v in zip(x.keys, x.values):
+                if k is not None and const_str(k) and isinstance(v, ast.Call) and dotted(v.func) in ("len", "int"):
+                    counts.add(const_str(k))
+    n_it = 0
+    for x in walk_no_defs(rc.node):
+        if isinstance(x, ast.Call) and dotted(x.func) in ("set", "list", "tuple", "sorted", "frozenset") and x.args:
+            keys = {const_str(y.args[0]) for y in ast.walk(x.args[0]) if isinstance(y, ast.Call) and call_tail(y) == "get" and y.args and const_str(y.args[0])}
+            names = {y.id for y in ast.walk(x.args[0]) if isinstance(y, ast.Name)}
+            for y in walk_no_defs(rc.node):
+                if isinstance(y, ast.NamedExpr) and isinstance(y.target, ast.Name) and y.target.id in names:
+                    keys |= {const_str(z.args[0]) for z in ast.walk(y.value) if isinstance(z, ast.Call) and call_tail(z) == "get" and z.args and const_str(z.args[0])}
+            for k in sorted(keys & counts):
+                n_it += 1
+                par = ctx.prog.parents(rc.node).get(id(x))
+                narrowed = isinstance(par, ast.IfExp) and par.body is x and any(isinstance(z, ast.Call) and dotted(z.func) == "isinstance" for z in ast.walk(par.test))
+                ctx.check(narrowed, "C10.COMMIT", f"{rc.qual}/metric-used-as-reported:{k}", rc.loc(x), f"`{k}` is iterated only where it is known to be a collection",
+                          f"`{src(x)[:60]}` iterates the stage metric `{k}`, which the real T1 reports as a count: with any active graph the compute phase raises TypeError while the sequential loop "
+                          "over the same turns completes")
+    ctx.floor("C10.COMMIT", "stage metrics iterated by the compute phase that the real stage reports as counts", n_it, 1)
+
+
 def rule_batch(ctx) -> None:
     fn = ctx.func(PAR + ":_select_independent_batch")
     cfg = ctx.cfg(fn)
@@ -524,6 +607,7 @@ def run(ctx) -> None:
     rule_ro(ctx)
     rule_dry(ctx)
     rule_commit(ctx)
+    rule_driver_faithful(ctx)
     rule_batch(ctx)
     rule_stage(ctx)
     rule_stage_seq(ctx)
